@@ -1,9 +1,360 @@
-/- C20 — statements under construction -/
-import AgpTpf.Model.NaturalKey
+/-
+  C20 — Scaffold ordering is total, numeric-aware and never fails.
+
+  Python: `Assembly.name_natural_key`, `scaffolds_sorted_by_name`, `smart_sort_scaffolds` (assembly.py).
+  Model:  `AgpTpf/Model/NaturalKey.lean`.  Helper lemmas: `AgpTpf/Proofs/C20*.lean`.
+
+  Python's tuple comparison of two keys can only raise `TypeError` if an `int` meets a `str` at the same
+  position.  `re.split` with one capture group always yields `text, match, text, match, …, text`, so odd
+  positions are ints and even positions are strs; in the model this is by construction (`NatKey` is
+  `first : Str` + `List (Int × Str)`), hence the comparison `keyLe` is a total `Bool` function and the only
+  place where the key computation can raise is `int(x)` = `pyInt` inside `tokenValue` (theorem 1).
+
+  Domain caveats of the MODEL (not of the proofs): (a) `isDigit` is ASCII `0-9`; Python's `\d` on `str` also
+  matches other Unicode decimal digits (which `int()` accepts too) — outside the modelled alphabet.
+  (b) `pyInt` has no `sys.int_max_str_digits` limit: on CPython ≥ 3.11 `int()` raises `ValueError` for a digit
+  run longer than 4300 characters, so for the real code "never fails" holds only for names whose digit runs
+  are at most 4300 long (checked: `name_natural_key` on "SUPER_" + "1"*4301 raises ValueError under 3.12).
+-/
+import AgpTpf.Proofs.C20Names
+import AgpTpf.Proofs.C20Sort
 namespace AgpTpf.C20
 open AgpTpf
-theorem strLe_refl (s : Str) : strLe s s = true := by
-  induction s with
-  | nil => rfl
-  | cons c cs ih => simp [strLe, ih]
+
+/-! ## 1  the key function never fails -/
+
+/-- every match token of the split is one of the table numerals or a non-empty run of ASCII digits -/
+theorem natTokens_matches_good (name : Str) :
+    ∀ p ∈ (natTokens name).rest,
+      (p.1 = ['I'] ∨ p.1 = ['I', 'I'] ∨ p.1 = ['I', 'I', 'I'] ∨ p.1 = ['I', 'V'])
+      ∨ (p.1 ≠ [] ∧ ∀ c ∈ p.1, isDigit c = true) :=
+  goodToks_natTokens name
+
+/-- every numeral the tokenizer can produce is in the generated table with a non-zero value
+    (re-checked against `Gen.nematodeChrInt` on every build) -/
+theorem numerals_in_table :
+    dGet? Gen.nematodeChrInt ['I'] = some 1 ∧ dGet? Gen.nematodeChrInt ['I', 'I'] = some 2 ∧
+    dGet? Gen.nematodeChrInt ['I', 'I', 'I'] = some 3 ∧ dGet? Gen.nematodeChrInt ['I', 'V'] = some 4 := by decide
+
+/-- `int()` succeeds on a non-empty ASCII digit run and returns its decimal value -/
+theorem pyInt_digit_run (m : Str) (hne : m ≠ []) (hd : ∀ c ∈ m, isDigit c = true) :
+    pyInt m = .ok (digitsVal 0 m : Nat) := pyInt_digits hne hd
+
+example : pyInt ['0', '0', '7'] = .ok 7 := by decide
+
+/-- **C20.1** `name_natural_key` never raises, for every name (no length or alphabet restriction). -/
+theorem natural_key_total : ∀ name : Str, ∃ k, naturalKey name = .ok k :=
+  fun name => ⟨keyOf name, naturalKey_eq name⟩
+
+/-- the same with the key named: `keyOf` (a pure function defined in `Proofs/C20.lean`) is what is returned;
+    the remaining statements are phrased with `keyOf`. -/
+theorem natural_key_eq (name : Str) : naturalKey name = .ok (keyOf name) := naturalKey_eq name
+
+example : naturalKey "SUPER_10".toList = .ok { first := "SUPER_".toList, rest := [(10, [])] } := by decide
+example : naturalKey "IIII".toList = .ok { first := [], rest := [(3, []), (1, [])] } := by decide
+example : naturalKey "chrIV_2".toList = .ok { first := "chr".toList, rest := [(4, ['_']), (2, [])] } := by decide
+
+/-! ## 2  the comparisons are total preorders (in fact total orders on keys) -/
+
+theorem keyLe_refl (a : NatKey) : keyLe a a = true := keyLe_refl' a
+theorem keyLe_total (a b : NatKey) : keyLe a b = true ∨ keyLe b a = true := keyLe_total' a b
+theorem keyLe_trans (a b c : NatKey) : keyLe a b = true → keyLe b c = true → keyLe a c = true :=
+  fun h1 h2 => keyLe_trans' h1 h2
+/-- on keys the order is even antisymmetric; different *names* can have the same key (see below). -/
+theorem keyLe_antisymm (a b : NatKey) : keyLe a b = true → keyLe b a = true → a = b :=
+  fun h1 h2 => keyLe_antisymm' h1 h2
+
+theorem smartLe_refl (a : Int × NatKey) : smartLe a a = true := smartLe_refl' a
+theorem smartLe_total (a b : Int × NatKey) : smartLe a b = true ∨ smartLe b a = true := smartLe_total' a b
+theorem smartLe_trans (a b c : Int × NatKey) : smartLe a b = true → smartLe b c = true → smartLe a c = true :=
+  fun h1 h2 => smartLe_trans' h1 h2
+theorem smartLe_antisymm (a b : Int × NatKey) : smartLe a b = true → smartLe b a = true → a = b :=
+  fun h1 h2 => smartLe_antisymm' h1 h2
+
+/-- names whose digit runs differ only in leading zeros, or that spell a number as numeral / in digits,
+    have the same key: the order on *names* is a preorder, not an order. -/
+example : keyOf "SUPER_02".toList = keyOf "SUPER_2".toList := by decide
+example : keyOf "chrIV".toList = keyOf "chr4".toList := by decide
+
+
+/-! ## 7  the sorts never fail, return a sorted permutation, and rank takes precedence over the name -/
+
+/-- `smart_sort_scaffolds` never raises; `smartSorted` is the stable sort by the pure key `smartKey s =
+    (s.rank, keyOf s.name)` (both defined in `Proofs/C20Sort.lean`). -/
+theorem smartSort_total (scs : List Scaffold) : smartSort scs = .ok (smartSorted scs) := smartSort_eq' scs
+
+theorem sortedByName_total (scs : List Scaffold) : sortedByName scs = .ok (nameSorted scs) := sortedByName_eq' scs
+
+theorem smartSort_perm (scs out : List Scaffold) (h : smartSort scs = .ok out) : out.Perm scs := by
+  rw [smartSort_eq'] at h; cases h
+  exact stableSort_perm _ scs
+
+/-- the output is sorted by `(rank, natural_key)` -/
+theorem smartSort_sorted (scs out : List Scaffold) (h : smartSort scs = .ok out) :
+    out.Pairwise (fun a b => smartLe (a.rank, keyOf a.name) (b.rank, keyOf b.name) = true) := by
+  rw [smartSort_eq'] at h; cases h
+  exact stableSort_sorted (totalPreorder_comap smartLe_totalPreorder smartKey) scs
+
+/-- **C20.7** rank takes precedence over the name: in the output of `smart_sort_scaffolds` ranks are
+    non-decreasing (whatever the names are). -/
+theorem rank_first (scs out : List Scaffold) (h : smartSort scs = .ok out) :
+    out.Pairwise (fun a b => a.rank ≤ b.rank) :=
+  (smartSort_sorted scs out h).imp (fun h => smartLe_rank h)
+
+/-- within one rank the natural key decides -/
+theorem smartSort_sorted_within_rank (scs out : List Scaffold) (h : smartSort scs = .ok out) :
+    out.Pairwise (fun a b => a.rank = b.rank → keyLe (keyOf a.name) (keyOf b.name) = true) := by
+  refine (smartSort_sorted scs out h).imp ?_
+  intro a b hab e
+  simpa [smartLe, e] using hab
+
+theorem sortedByName_perm (scs out : List Scaffold) (h : sortedByName scs = .ok out) : out.Perm scs := by
+  rw [sortedByName_eq'] at h; cases h
+  exact stableSort_perm _ scs
+
+theorem sortedByName_sorted (scs out : List Scaffold) (h : sortedByName scs = .ok out) :
+    out.Pairwise (fun a b => keyLe (keyOf a.name) (keyOf b.name) = true) := by
+  rw [sortedByName_eq'] at h; cases h
+  exact stableSort_sorted (totalPreorder_comap keyLe_totalPreorder (fun s => keyOf s.name)) scs
+
+/-- non-vacuity: rank 1 with a "small" name comes after rank 0 with a "large" name -/
+example : smartSort [{ name := "A".toList, rank := 1 }, { name := "Z".toList, rank := 0 }]
+    = .ok [{ name := "Z".toList, rank := 0 }, { name := "A".toList, rank := 1 }] := by decide
+
+/-! ## 3  consistency of the sort -/
+
+/-- `stableSort` returns a sorted permutation of its input for every total preorder -/
+theorem stableSort_sorted_perm {α} (le : α → α → Bool) (h : TotalPreorder le) (l : List α) :
+    (stableSort le l).Perm l ∧ (stableSort le l).Pairwise (fun a b => le a b = true) :=
+  ⟨stableSort_perm le l, stableSort_sorted h l⟩
+
+/-- sortedness + permutation determine the key sequence: if `le` is a total preorder and elements that are
+    mutually `le` have the same `key`, then any two sorted permutations of each other have equal key sequences. -/
+theorem sorted_perm_determines_keys {α κ} (le : α → α → Bool) (h : TotalPreorder le) (key : α → κ)
+    (E : ∀ a b, le a b = true → le b a = true → key a = key b) (l l' : List α) (hp : l.Perm l')
+    (hs : l.Pairwise (fun a b => le a b = true)) (hs' : l'.Pairwise (fun a b => le a b = true)) :
+    l.map key = l'.map key :=
+  sorted_perm_map_key_eq h key E _ l l' rfl hp hs hs'
+
+/-- **C20.3 (general)** permuting the input of a stable sort does not change the key sequence of the output. -/
+theorem stableSort_consistent {α κ} (le : α → α → Bool) (h : TotalPreorder le) (key : α → κ)
+    (E : ∀ a b, le a b = true → le b a = true → key a = key b) (l₁ l₂ : List α) (hp : l₁.Perm l₂) :
+    (stableSort le l₁).map key = (stableSort le l₂).map key :=
+  stableSort_key_perm_invariant h key E hp
+
+/-- **C20.3** `smart_sort_scaffolds` is consistent: two initial orders of the same multiset of scaffolds
+    give outputs with the same sequence of `(rank, natural_key)`. -/
+theorem smartSort_consistent (scs₁ scs₂ o₁ o₂ : List Scaffold) (hp : scs₁.Perm scs₂)
+    (h₁ : smartSort scs₁ = .ok o₁) (h₂ : smartSort scs₂ = .ok o₂) :
+    o₁.map (fun s => (s.rank, keyOf s.name)) = o₂.map (fun s => (s.rank, keyOf s.name)) := by
+  rw [smartSort_eq'] at h₁ h₂; cases h₁; cases h₂
+  exact stableSort_key_perm_invariant (totalPreorder_comap smartLe_totalPreorder smartKey) smartKey
+    (fun a b h1 h2 => smartLe_antisymm' h1 h2) hp
+
+/-- … and if no two scaffolds share `(rank, natural_key)` the outputs are identical. -/
+theorem smartSort_deterministic (scs₁ scs₂ o₁ o₂ : List Scaffold) (hp : scs₁.Perm scs₂)
+    (hn : (scs₁.map (fun s => (s.rank, keyOf s.name))).Nodup)
+    (h₁ : smartSort scs₁ = .ok o₁) (h₂ : smartSort scs₂ = .ok o₂) : o₁ = o₂ := by
+  rw [smartSort_eq'] at h₁ h₂; cases h₁; cases h₂
+  exact stableSort_perm_invariant_of_nodup smartLe_totalPreorder (fun a b => smartLe_antisymm') smartKey hp hn
+
+theorem sortedByName_consistent (scs₁ scs₂ o₁ o₂ : List Scaffold) (hp : scs₁.Perm scs₂)
+    (h₁ : sortedByName scs₁ = .ok o₁) (h₂ : sortedByName scs₂ = .ok o₂) :
+    o₁.map (fun s => keyOf s.name) = o₂.map (fun s => keyOf s.name) := by
+  rw [sortedByName_eq'] at h₁ h₂; cases h₁; cases h₂
+  exact stableSort_key_perm_invariant (totalPreorder_comap keyLe_totalPreorder (fun s => keyOf s.name))
+    (fun s => keyOf s.name) (fun a b h1 h2 => keyLe_antisymm' h1 h2) hp
+
+theorem sortedByName_deterministic (scs₁ scs₂ o₁ o₂ : List Scaffold) (hp : scs₁.Perm scs₂)
+    (hn : (scs₁.map (fun s => keyOf s.name)).Nodup)
+    (h₁ : sortedByName scs₁ = .ok o₁) (h₂ : sortedByName scs₂ = .ok o₂) : o₁ = o₂ := by
+  rw [sortedByName_eq'] at h₁ h₂; cases h₁; cases h₂
+  exact stableSort_perm_invariant_of_nodup keyLe_totalPreorder (fun a b => keyLe_antisymm')
+    (fun s => keyOf s.name) hp hn
+
+/-- what "up to names with equal keys" means precisely: the sort is stable, so the scaffolds sharing any given
+    `(rank, natural_key)` come out in the order they went in. -/
+theorem smartSort_stable (scs out : List Scaffold) (h : smartSort scs = .ok out) (k : Int × NatKey) :
+    out.filter (fun s => (s.rank, keyOf s.name) = k) = scs.filter (fun s => (s.rank, keyOf s.name) = k) := by
+  rw [smartSort_eq'] at h; cases h
+  by_cases hk : ∃ a ∈ scs, smartKey a = k
+  · obtain ⟨a, _, rfl⟩ := hk
+    have hst := stableSort_stable (totalPreorder_comap smartLe_totalPreorder smartKey) a scs
+    have hiff : ∀ s : Scaffold, (smartLe (smartKey a) (smartKey s) && smartLe (smartKey s) (smartKey a))
+        = decide ((s.rank, keyOf s.name) = smartKey a) := by
+      intro s
+      rw [Bool.eq_iff_iff]
+      simp only [Bool.and_eq_true, decide_eq_true_eq]
+      constructor
+      · rintro ⟨h1, h2⟩; exact smartLe_antisymm' h2 h1
+      · intro e
+        have : smartKey s = smartKey a := e
+        rw [this]; exact ⟨smartLe_refl' _, smartLe_refl' _⟩
+    simp only [hiff] at hst
+    exact hst
+  · have hnone : ∀ l : List Scaffold, (∀ s ∈ l, s ∈ scs) →
+        l.filter (fun s => decide ((s.rank, keyOf s.name) = k)) = [] := by
+      intro l hl
+      rw [List.filter_eq_nil_iff]
+      intro s hs e
+      exact hk ⟨s, hl s hs, by simpa [smartKey] using e⟩
+    rw [hnone (smartSorted scs) (fun s hs => (stableSort_perm _ scs).subset hs), hnone scs (fun s hs => hs)]
+
+/-- non-vacuity: a non-trivial permutation, equal keys (`SUPER_02` / `SUPER_2`) included -/
+example :
+    let a : Scaffold := { name := "SUPER_10".toList }
+    let b : Scaffold := { name := "SUPER_02".toList }
+    let c : Scaffold := { name := "SUPER_2".toList }
+    [a, b, c].Perm [c, a, b] ∧ smartSort [a, b, c] = .ok [b, c, a] ∧ smartSort [c, a, b] = .ok [c, b, a] := by
+  refine ⟨?_, by decide, by decide⟩
+  exact (List.perm_append_comm (l₁ := [_, _]) (l₂ := [_]))
+
+
+/-! ## side conditions used below
+
+`keyLt a b` (defined in `Proofs/C20Names.lean`) is `keyLe a b = true ∧ keyLe b a = false`, i.e. Python's strict `<`
+on the key tuples. -/
+
+/-- the prefix is empty or its last character is neither `I` nor an ASCII digit (so that no numeral / digit run
+    of the prefix can merge with what follows) -/
+def PrefixOk (p : Str) : Prop := ∀ c, p.getLast? = some c → c ≠ 'I' ∧ isDigit c = false
+
+/-- the remainder does not start with an ASCII digit (so that it does not continue a digit run) -/
+def NoDigitHead (s : Str) : Prop := ∀ c, s.head? = some c → isDigit c = false
+
+instance (p : Str) : Decidable (PrefixOk p) := decidable_of_iff _ (okPrefix_iff p)
+instance (s : Str) : Decidable (NoDigitHead s) := decidable_of_iff _ (startsDigit_false_iff s)
+
+example : PrefixOk "SUPER_".toList := by decide
+example : PrefixOk "chrIV_".toList := by decide
+example : NoDigitHead "_unloc_3".toList := by decide
+example : NoDigitHead [] := by decide
+
+/-- a common prefix satisfying `PrefixOk` has no influence on the comparison (the engine behind 4, 5, 6) -/
+theorem common_prefix_irrelevant (p x y : Str) (hp : PrefixOk p) :
+    keyLe (keyOf (p ++ x)) (keyOf (p ++ y)) = keyLe (keyOf x) (keyOf y) :=
+  keyLe_prefix ((okPrefix_iff p).mpr hp) x y
+
+/-- the side condition cannot simply be dropped: after a prefix ending in `I` the numerals regroup
+    (`I·III` = `III·I` → (3,1) but `I·IV` = `II·V` → (2,"V")), after a digit the digit runs merge. -/
+example : keyLt (keyOf "III".toList) (keyOf "IV".toList) ∧ keyLt (keyOf "IIV".toList) (keyOf "IIII".toList) := by decide
+example : keyLt (keyOf "2".toList) (keyOf "B".toList) ∧ keyLt (keyOf "1B".toList) (keyOf "12".toList) := by decide
+
+/-! ## 5  nematode numerals compare by value -/
+
+/-- table facts, re-checked against the generated table on every build -/
+theorem numeral_values :
+    tokenValue ['I'] = .ok 1 ∧ tokenValue ['I', 'I'] = .ok 2 ∧ tokenValue ['I', 'I', 'I'] = .ok 3 ∧
+    tokenValue ['I', 'V'] = .ok 4 := by decide
+
+/-- **C20.5** after a common prefix (`PrefixOk`) the names `…I…`, `…II…`, `…III…`, `…IV…` compare in this order,
+    whatever follows the numeral, provided what follows `I` does not start with `I`/`V` and what follows `II` does
+    not start with `I` (otherwise it is a different numeral). -/
+theorem numerals_by_value (p s₁ s₂ s₃ s₄ : Str) (hp : PrefixOk p)
+    (h1 : s₁.head? ≠ some 'I') (h1' : s₁.head? ≠ some 'V') (h2 : s₂.head? ≠ some 'I') :
+    keyLt (keyOf (p ++ 'I' :: s₁)) (keyOf (p ++ 'I' :: 'I' :: s₂)) ∧
+    keyLt (keyOf (p ++ 'I' :: 'I' :: s₂)) (keyOf (p ++ 'I' :: 'I' :: 'I' :: s₃)) ∧
+    keyLt (keyOf (p ++ 'I' :: 'I' :: 'I' :: s₃)) (keyOf (p ++ 'I' :: 'V' :: s₄)) := by
+  have hp' := (okPrefix_iff p).mpr hp
+  have e1 := keyOf_I ((notHead_iff _ _).mpr h1) ((notHead_iff _ _).mpr h1')
+  have e2 := keyOf_II ((notHead_iff _ _).mpr h2)
+  refine ⟨keyLt_prefix hp' ?_, keyLt_prefix hp' ?_, keyLt_prefix hp' ?_⟩
+  · rw [e1, e2]; exact keyLt_kPush_of_lt (by decide) _ _
+  · rw [e2, keyOf_III]; exact keyLt_kPush_of_lt (by decide) _ _
+  · rw [keyOf_III, keyOf_IV]; exact keyLt_kPush_of_lt (by decide) _ _
+
+example : keyLt (keyOf "chrI_x".toList) (keyOf "chrII".toList) ∧ keyLt (keyOf "chrII".toList) (keyOf "chrIII_a".toList)
+    ∧ keyLt (keyOf "chrIII_a".toList) (keyOf "chrIV".toList) := by decide
+/-- `V` and `X` are deliberately not in the table (source comment: they "will sort in the correct order within
+    nematode chromosomes anyway"): they stay text, and text `"chrV"`/`"chrX"` is greater than text `"chr"`
+    followed by a number, so `I < II < III < IV < V < X` still holds. -/
+example : keyLt (keyOf "chrI".toList) (keyOf "chrV".toList) ∧ keyLt (keyOf "chrIV".toList) (keyOf "chrV".toList)
+    ∧ keyLt (keyOf "chrIV".toList) (keyOf "chrX".toList) := by decide
+
+/-! ## 4  embedded decimal numbers compare by value -/
+
+/-- `natToStr` (Python `str(n)`) produces a non-empty run of ASCII digits, with no leading zero for `n > 0`,
+    and the key value of that run is `n`. -/
+theorem natToStr_facts (n : Nat) :
+    natToStr n ≠ [] ∧ (∀ c ∈ natToStr n, isDigit c = true) ∧ (0 < n → (natToStr n).head? ≠ some '0') ∧
+    tokenValue (natToStr n) = .ok (n : Int) := by
+  refine ⟨natToStr_ne_nil n, natToStr_allDigits n, natToStr_no_leading_zero n, ?_⟩
+  rw [tokenValue_digits (natToStr_ne_nil n) (natToStr_allDigits n), digitsVal_natToStr]
+
+/-- **C20.4** `m < n → key (p ++ str m ++ s) < key (p ++ str n ++ s')` for every prefix with `PrefixOk` and all
+    remainders that do not start with a digit (in particular `s = s' = []`): SUPER_2 before SUPER_10. -/
+theorem numeric_aware (p s s' : Str) (m n : Nat) (hp : PrefixOk p) (hs : NoDigitHead s) (hs' : NoDigitHead s')
+    (h : m < n) : keyLt (keyOf (p ++ natToStr m ++ s)) (keyOf (p ++ natToStr n ++ s')) := by
+  rw [List.append_assoc, List.append_assoc]
+  refine keyLt_prefix ((okPrefix_iff p).mpr hp) ?_
+  rw [keyOf_natToStr_append m ((startsDigit_false_iff s).mpr hs),
+      keyOf_natToStr_append n ((startsDigit_false_iff s').mpr hs')]
+  exact keyLt_kPush_of_lt (by omega) _ _
+
+theorem numeric_aware_end (p : Str) (m n : Nat) (hp : PrefixOk p) (h : m < n) :
+    keyLt (keyOf (p ++ natToStr m)) (keyOf (p ++ natToStr n)) := by
+  have := numeric_aware p [] [] m n hp (by decide) (by decide) h
+  simpa using this
+
+/-- equal numbers: the remainder decides -/
+theorem numeric_tie (p s s' : Str) (n : Nat) (hp : PrefixOk p) (hs : NoDigitHead s) (hs' : NoDigitHead s') :
+    keyLe (keyOf (p ++ natToStr n ++ s)) (keyOf (p ++ natToStr n ++ s')) = keyLe (keyOf s) (keyOf s') := by
+  rw [List.append_assoc, List.append_assoc, keyLe_prefix ((okPrefix_iff p).mpr hp),
+      keyOf_natToStr_append n ((startsDigit_false_iff s).mpr hs),
+      keyOf_natToStr_append n ((startsDigit_false_iff s').mpr hs'), keyLe_kPush_same]
+
+example : keyLt (keyOf "SUPER_2".toList) (keyOf "SUPER_10".toList) := by decide
+example : natToStr 10 = "10".toList ∧ natToStr 2 = "2".toList := by decide
+/-- plain string comparison would have put them the other way round -/
+example : strLe "SUPER_10".toList "SUPER_2".toList = true := by decide
+
+/-! ## 6  an unloc sorts after its own chromosome and before the next one -/
+
+/-- general form: any non-empty extension of chromosome `n` that does not continue its number sorts after
+    chromosome `n` and before every chromosome `n' > n` (and all its extensions). -/
+theorem extension_between (p s s' : Str) (n n' : Nat) (hp : PrefixOk p) (hne : s ≠ []) (hs : NoDigitHead s)
+    (hs' : NoDigitHead s') (h : n < n') :
+    keyLt (keyOf (p ++ natToStr n)) (keyOf (p ++ natToStr n ++ s)) ∧
+    keyLt (keyOf (p ++ natToStr n ++ s)) (keyOf (p ++ natToStr n' ++ s')) := by
+  refine ⟨?_, numeric_aware p s s' n n' hp hs hs' h⟩
+  rw [List.append_assoc]
+  refine keyLt_prefix ((okPrefix_iff p).mpr hp) ?_
+  rw [keyOf_natToStr_append n ((startsDigit_false_iff s).mpr hs), keyOf_natToStr]
+  unfold keyLt
+  rw [keyLe_kPush_same, keyLe_kPush_same]
+  exact keyLt_nil_of_ne_nil hne
+
+/-- `"_unloc_"` -/
+def unlocInfix : Str := ['_', 'u', 'n', 'l', 'o', 'c', '_']
+example : unlocInfix = "_unloc_".toList := by decide
+
+/-- **C20.6** for chromosomes `c = p ++ str n`, `c' = p ++ str n'` with `n < n'`:
+    `key c < key (c ++ "_unloc_" ++ str k) < key c'`. -/
+theorem unloc_between (p : Str) (n n' k : Nat) (hp : PrefixOk p) (h : n < n') :
+    keyLt (keyOf (p ++ natToStr n)) (keyOf (p ++ natToStr n ++ unlocInfix ++ natToStr k)) ∧
+    keyLt (keyOf (p ++ natToStr n ++ unlocInfix ++ natToStr k)) (keyOf (p ++ natToStr n')) := by
+  have := extension_between p (unlocInfix ++ natToStr k) [] n n' hp (by simp [unlocInfix])
+    (by intro c hc; simp [unlocInfix] at hc; subst hc; decide) (by decide) h
+  simpa [List.append_assoc] using this
+
+/-- the unlocs of one chromosome are ordered by their own number -/
+theorem unloc_order (p : Str) (n k k' : Nat) (h : k < k') :
+    keyLt (keyOf (p ++ natToStr n ++ unlocInfix ++ natToStr k))
+          (keyOf (p ++ natToStr n ++ unlocInfix ++ natToStr k')) := by
+  refine numeric_aware_end (p ++ natToStr n ++ unlocInfix) k k' ?_ h
+  intro c hc
+  simp [unlocInfix] at hc
+  subst hc; decide
+
+example : keyLt (keyOf "SUPER_2".toList) (keyOf "SUPER_2_unloc_1".toList) ∧
+    keyLt (keyOf "SUPER_2_unloc_1".toList) (keyOf "SUPER_2_unloc_12".toList) ∧
+    keyLt (keyOf "SUPER_2_unloc_12".toList) (keyOf "SUPER_3".toList) ∧
+    keyLt (keyOf "SUPER_3".toList) (keyOf "SUPER_10".toList) := by decide
+
+/-- end to end: ranks first, then numbers by value, unlocs directly behind their chromosome -/
+example : sortedByName [{ name := "SUPER_10".toList }, { name := "SUPER_2_unloc_1".toList },
+      { name := "SUPER_3".toList }, { name := "SUPER_2".toList }]
+    = .ok [{ name := "SUPER_2".toList }, { name := "SUPER_2_unloc_1".toList },
+      { name := "SUPER_3".toList }, { name := "SUPER_10".toList }] := by decide
+
 end AgpTpf.C20
